@@ -280,6 +280,7 @@ pub fn run(tier: Tier) -> i32 {
     crate::c01::run_large_families(&mut rep, &[Pipe::D, Pipe::PD, Pipe::DF]);
     let l = if tier.thorough() { 6 } else { 5 };
     string_differential(&mut rep, l, std_tokens(), "strings-std");
+    string_differential(&mut rep, if tier.thorough() { 6 } else { 5 }, macro_tokens(), "strings-macro");
     if tier.thorough() {
         string_differential(&mut rep, 7, small_tokens(), "strings-small");
     }
